@@ -356,4 +356,48 @@ def decryptJson (P : Prims) (E : Env) (K : KeyEnv) (T : KeyTables) (Z : ZipConst
   let pt ← performDecrypt P E T Z reg m rs
   pure (pt, prot)
 
+/-! ## Reading a JSON serialization object (`FlattenedJSONSerialization` / `GeneralJSONSerialization` of the documented shape) -/
+
+def optDict (kvs : Dict) (k : String) : Option (Option Dict) :=
+  match Dict.get? kvs k with
+  | none => some none
+  | some (.obj d) => some (some d)
+  | _ => none
+
+def optStr (kvs : Dict) (k : String) : Option (Option String) :=
+  match Dict.get? kvs k with
+  | none => some none
+  | some (.str s) => some (some s)
+  | _ => none
+
+def reqStr (kvs : Dict) (k : String) : Option String :=
+  match Dict.get? kvs k with | some (.str s) => some s | _ => none
+
+/-- One entry of `"recipients"` (or the top-level members of the flattened form). -/
+def readJsonRecipient (x : JVal) : Option JsonRecipient :=
+  match x with
+  | .obj d =>
+    match optDict d "header", optStr d "encrypted_key" with
+    | some h, some k => some { header := h, encryptedKey := k }
+    | _, _ => none
+  | _ => none
+
+def readJweJson (v : JVal) : Option JweJson :=
+  match v with
+  | .obj kvs =>
+    match reqStr kvs "protected", optDict kvs "unprotected", reqStr kvs "iv", reqStr kvs "ciphertext", reqStr kvs "tag",
+        optStr kvs "aad" with
+    | some prot, some unprotected, some iv, some ciphertext, some tag, some aad =>
+      if Dict.contains kvs "recipients" then
+        match Dict.get? kvs "recipients" with
+        | some (.arr xs) =>
+          (xs.mapM readJsonRecipient).map fun rs =>
+            { prot, unprotected, iv, ciphertext, tag, aad, general := true, recipients := rs }
+        | _ => none
+      else
+        (readJsonRecipient (.obj kvs)).map fun r =>
+          { prot, unprotected, iv, ciphertext, tag, aad, general := false, recipients := [r] }
+    | _, _, _, _, _, _ => none
+  | _ => none
+
 end Jose
